@@ -207,13 +207,18 @@ theorem marshalV_total (E : Ext) (hs : SafeTotal E) (v : Value) (ct : Ty)
 theorem marshalV_no_panic (E : Ext) (v : Value) (ct : Ty) (w : String) : marshalV E v ct ≠ .panic w := by
   rw [marshalV_eq]; exact (childItem_np E v.v (np E v.v) ct v.ty).1 w
 
+/-- a value that contains a mark anywhere is refused, conforming or not -/
+theorem marshalC_marked_err (E : Ext) (C : Convert.Env) (fuel : Nat) (v : Value) (ct : Ty)
+    (hm : v.containsMarked = true) : marshalC E C fuel v ct = .err "value has marks, so it cannot be serialized" := by
+  unfold marshalC; rw [if_pos hm]
+
 /-- T1 -/
 theorem marshalC_conforming (E : Ext) (C : Convert.Env) (fuel : Nat) (v : Value) (ct : Ty)
-    (h : Ty.conformErrs ct v.ty = 0) : marshalC E C fuel v ct = marshal E v ct := by
+    (h : Ty.conformErrs ct v.ty = 0) (hm : v.containsMarked = false) : marshalC E C fuel v ct = marshal E v ct := by
   unfold marshalC marshal
-  simp only [h, ne_eq, not_true_eq_false, if_false]
+  simp only [hm, Bool.false_eq_true, if_false, h, ne_eq, not_true_eq_false]
   split
-  · rename_i hm
+  · rename_i hmk
     unfold marshalV
     cases hv : v.v <;> simp_all [Payload.isMarked]
   · rfl
@@ -223,12 +228,14 @@ theorem marshalC_panic_only_from_convert (E : Ext) (C : Convert.Env) (fuel : Nat
     (w : String) (h : marshalC E C fuel v ct = .panic w) : Convert.convert C fuel v ct = .panic w := by
   unfold marshalC at h
   split at h
-  · cases hc : Convert.convert C fuel v ct with
-    | ok v' => rw [hc] at h; exact absurd h (marshalV_no_panic E v' ct w)
-    | err e => rw [hc] at h; simp at h
-    | panic w' => rw [hc] at h; simpa using h
-    | unmodelled => rw [hc] at h; simp at h
-  · exact absurd h (marshalV_no_panic E v ct w)
+  · cases h
+  · split at h
+    · cases hc : Convert.convert C fuel v ct with
+      | ok v' => rw [hc] at h; exact absurd h (marshalV_no_panic E v' ct w)
+      | err e => rw [hc] at h; simp at h
+      | panic w' => rw [hc] at h; simpa using h
+      | unmodelled => rw [hc] at h; simp at h
+    · exact absurd h (marshalV_no_panic E v ct w)
 
 mutual
 theorem confShape_eq_matches : ∀ c t : Ty, confShape c t = Ty.«matches» c t
@@ -275,8 +282,10 @@ theorem marshalC_total_of_convert (E : Ext) (hs : SafeTotal E) (C : Convert.Env)
     (hc : confShape ct v'.ty = true) (hp : shapeP v'.ty v'.v = true) :
     (∃ it, marshalC E C fuel v ct = .ok it) ∨ (∃ e, marshalC E C fuel v ct = .err e) := by
   unfold marshalC
-  rw [if_pos hn, hcv]
-  exact marshalV_total E hs v' ct hc hp
+  by_cases hm : v.containsMarked = true
+  · rw [if_pos hm]; exact .inr ⟨_, rfl⟩
+  · rw [if_neg hm, if_pos hn, hcv]
+    exact marshalV_total E hs v' ct hc hp
 
 end Msgpack
 end CtyModel
